@@ -52,6 +52,60 @@ def same(a, b):
         return a == b
 
 
+def task_builder_defaults(job):
+    """subworker task: default dates of the builders and the clock helper, observed in a fresh interpreter configuration."""
+    mc, common = lib.cct("metadata_construction"), lib.cct("common")
+    now = lambda: datetime.datetime.utcnow().replace(microsecond=0).strftime(FMT)      # noqa: E731
+    out = []
+    for i in range(job["n"]):
+        for fn in ("deleg:root", "deleg:key_mgr", "root"):
+            t0 = now()
+            try:
+                md = (mc.build_delegating_metadata(fn.split(":")[1]) if fn.startswith("deleg") else
+                      mc.build_root_metadata(1 + i, [sg.KA], 1, [sg.KB], 1))
+                rec = {"fn": fn, "ts": md.get("timestamp"), "exp": md.get("expiration")}
+            except Exception as e:  # noqa: BLE001
+                rec = {"fn": fn, "error": f"{type(e).__name__}: {e}"}
+            rec.update(t0=t0, t1=now())
+            out.append(rec)
+        for days, secs in [(0, 0), (365, 0), (31, 0), (-1, 0), (0, 86399), (3650, 0)]:
+            t0 = now()
+            try:
+                rec = {"fn": "helper", "days": days, "secs": secs, "got": common.iso8601_time_plus_delta(datetime.timedelta(days=days, seconds=secs))}
+            except Exception as e:  # noqa: BLE001
+                rec = {"fn": "helper", "days": days, "secs": secs, "error": f"{type(e).__name__}: {e}"}
+            rec.update(t0=t0, t1=now())
+            out.append(rec)
+    return out
+
+
+def judge_defaults(run, recs, config):
+    P = lambda s: datetime.datetime.strptime(s, FMT)      # noqa: E731
+    for rec in recs:
+        run.evaluations += 1
+        what = None
+        try:
+            if "error" in rec:
+                what = "raises " + rec["error"].split(":")[0]
+            elif rec["fn"] == "helper":
+                d = datetime.timedelta(days=rec["days"], seconds=rec["secs"])
+                if twins.twin_date(rec["got"]) != twins.ACCEPT or not (P(rec["t0"]) + d <= P(rec["got"]) <= P(rec["t1"]) + d):
+                    what = "iso8601_time_plus_delta is not current UTC time plus the given delta"
+            else:
+                ts, ex = P(rec["ts"]), P(rec["exp"])
+                if twins.twin_date(rec["ts"]) != twins.ACCEPT or twins.twin_date(rec["exp"]) != twins.ACCEPT:
+                    what = "default dates are not canonical UTC timestamps"
+                elif not (P(rec["t0"]) <= ts <= P(rec["t1"]) + datetime.timedelta(seconds=1)):
+                    what = "default timestamp is not the current UTC time"
+                elif abs((ex - ts) - datetime.timedelta(days=365)) > datetime.timedelta(seconds=2):
+                    what = "default expiration is not about one year after the timestamp"
+        except Exception as e:  # noqa: BLE001
+            what = f"default dates malformed ({type(e).__name__})"
+        if what:
+            name = "iso8601_time_plus_delta" if rec["fn"] == "helper" else ("build_root_metadata" if rec["fn"] == "root" else "build_delegating_metadata")
+            run.violation(f"{name} in configuration {config}: {what}", {"kind": "builder", "configuration": config, "record": rec})
+
+
 def check(run):
     quick = run.tier == "quick"
     mc, common, auth = lib.cct("metadata_construction"), lib.cct("common"), lib.cct("authentication")
@@ -186,6 +240,13 @@ def check(run):
             run.violation("iso8601_time_plus_delta accepts something that is not a timedelta", {"kind": "builder", "value": repr(bad)})
         except (TypeError, ValueError):
             pass
+    # the same defaults in every fresh-interpreter configuration (locale, time zone, build-environment variables)
+    from .. import procs
+    for cfg in procs.CONFIGS:
+        recs = procs.run_job(run, {"task": "builder_defaults", "n": 3 if quick else 30, "task_modules": ["cctverif.props.c16"]}, cfg)
+        judge_defaults(run, recs, cfg[0])
+        run._distinct.add("defaults-" + cfg[0])
+    run.extra["configurations"] = [c[0] for c in procs.CONFIGS]
     # built root chains: v(n) -> v(n+1) -> v(n+2), threshold-signed with the OpenPGP signer, judged by Trace_Root.tla
     keys = gamma.Keys(4, run.seed, offset=700)
     traces, conc = [], {}
